@@ -156,9 +156,8 @@ namespace occa {
           const json &value = it->second;
 
           out += newIndent;
-          out += '"';
-          out += key;
-          out += "\": ";
+          json(key).dumpToString(out, indent, newIndent);
+          out += ": ";
           if (value.type != none_) {
             value.dumpToString(out, indent, newIndent);
           } else {
